@@ -1240,6 +1240,11 @@ func (sab *storageAllocationBase) replaceBlobber(blobberID string, sc *StorageSm
 				if e != nil {
 					return fmt.Errorf("failed to move challenge pool back to write pool: %v", e)
 				}
+
+				// the tokens are in the write pool now, the stored challenge pool must give them up as well
+				if e = cp.save(sc.ID, sab, balances); e != nil {
+					return fmt.Errorf("failed to save challenge pool: %v", e)
+				}
 			}
 
 			if d.Stats.UsedSize > 0 {
